@@ -413,6 +413,9 @@ TREES = {
               "dangling": ("link", None), "lf": ("link", "root/b/g")},
     # names that are not valid UTF-8 (U+E080..U+E0FF stand for the raw bytes 0x80..0xFF, see harness os_name)
     "bytes": {"a": {"caf\ue0e9.txt": None, "x\ue0ff": {"g.txt": None}}, "\ue080dir": {"f": None, "h.txt": None}, "f": None},
+    # three levels of directories a, b with two-character files: the tree that the family walks of C02 use
+    "ab3": {"a": {"a": {"a": None, "b": None, "ba": None}, "b": {"a": None, "b": None, "ba": None}, "ab": None},
+            "b": {"a": {"a": None, "b": None, "ba": None}, "b": {"a": None, "b": None, "ba": None}, "ab": None}, "aa": None},
     "faults": {"a": {"f": None}, "locked": ("locked", {"s": None}), "z": {"deep": ("locked", {}), "g": None}, "dangling": ("link", None)},
 }
 
@@ -519,6 +522,28 @@ def glob_scenarios(tier, first_sid, rnd):
     for i, h in enumerate(out):
         h["sid"] = first_sid + i
         h["origin"] = "library"
+    return out
+
+
+def family_walk_scenarios(tier, first_sid, rnd, texts):
+    """glob walks over the tree ab3 for (a seeded sample of) the built members of expression families: the yielded
+    set of each is compared with the real is_match on every path of the tree (no trace validation)"""
+    pre = glob_prefixes(sorted(texts))
+    # (a rooted glob walks the real file system from its root: never)
+    import re
+    built = [g for g in sorted(texts) if g and pre.get(g) is not None and not re.match(r"^[{<(?i)-]*/", g)
+             and not any(c[0] == "root" for c in pre[g])]
+    rnd.shuffle(built)
+    deep = [g for g in built if "/" in g]
+    flat = [g for g in built if "/" not in g]
+    n = 1500 if tier == "quick" else 15000
+    pick = deep[: n * 4 // 5] + flat[: n // 5]
+    nodes, index = tree(TREES["ab3"])
+    out = []
+    for g in pick:
+        out.append({"sid": first_sid + len(out), "nodes": nodes, "follow": False, "min": -1, "max": -1, "glob": C.cps(g), "rooted": False,
+                    "walk_from": index["root"], "base": "abs", "layers": [], "tree": "ab3", "origin": "family", "skip_trace": True,
+                    "desc": "glob %r over tree ab3" % g})
     return out
 
 
